@@ -94,7 +94,7 @@ def attribute32(v):
     if c in ('content', 'result', 'panic', 'listing', 'not-a-union-of-atoms', 'aux', 'cardinality-mismatch', 'isempty-mismatch'):
         if op in SER:
             return serial_family(v)
-        if c == 'panic' and isinstance(v.get('detail'), str) and v['detail'].startswith('hang'):
+        if c == 'panic' and isinstance(v.get('detail'), str) and v['detail'].startswith('hang') and (op.startswith('Par') or op == 'ConcLoad'):
             return 'C12'
         if op in ('ParOr', 'ParAnd', 'ParHeapOr'):
             return 'C11+C12'
@@ -108,9 +108,12 @@ def attribute32(v):
             return 'C08'
         if op in MUT:
             return 'C02+C07'   # a bitmap that changes without being called no longer equals the replay of its own history
+        if op in TRF:
+            return 'C07+C16'   # "returns the bitmap ... and leaves b unchanged": a static transform that writes elsewhere
         return 'C07'
     if c in ('argument-slice-modified', 'result-aliases-input', 'sharing-witnessed'):
-        return 'C07'
+        # a result of a static transform that shares storage with b: mutating the result changes b (witnessed by the probe)
+        return 'C07+C16' if op in TRF else 'C07'
     if c.startswith('wf-') or c == 'validate':
         return 'C09'
     if c.startswith('size-'):
@@ -120,7 +123,10 @@ def attribute32(v):
     if c == 'iteration':
         return 'C04'
     if c == 'caller-buffer-written':
-        return 'C16' if op == 'DenseRT' else 'C08'
+        if op == 'DenseRT':
+            return 'C16'
+        d = v.get('detail')
+        return 'C08+C13' if isinstance(d, dict) and d.get('frozen') else 'C08'
     return None
 
 
